@@ -269,6 +269,10 @@ def audit(theorems, timeout=3000, schema_groups=(), sql_modules=()):
     Cached by the hash of the Lean sources.
     """
     out = _audit(theorems, timeout)
+    if os.environ.get("VERIF_NO_TIE"):
+        # used only by tools/matrix.sh, which runs many scratch worktrees in parallel against one lean/ directory and
+        # wants to know what the behavioural streams detect on their own
+        return out
     if out["build_ok"]:
         tie = schema_tie(schema_groups)
         out["schema_tie"] = {"groups": list(schema_groups), "ok": not tie}
@@ -434,6 +438,14 @@ class Context:
         elif not aud["ok"]:
             self.violation("proof-break", "lean audit", {"no_longer_checks": aud["problems"][:10]},
                            found_failing_input=False)
+        else:
+            # an obligation that failed without any report of its own must not leave the check green
+            failed = sorted(name for name, (_n, bad) in self.corr_obligations.items() if bad)
+            if failed and not [v for v in self.violations if v is not None]:
+                self.violation("correspondence-break", failed[0], {
+                    "input": None, "no_longer_checks": "correspondence: " + failed[0],
+                    "all_broken_obligations": failed,
+                    "failures": {name: self.corr_obligations[name][1] for name in failed}}, found_failing_input=False)
 
     def violation(self, kind, obligation, detail, found_failing_input=True):
         """Record a violation unless it matches a known finding."""
